@@ -79,7 +79,70 @@ def acceptable(old, new, op):
     return acc
 
 
-def judge_after_fault(res, t, op, out, old, new, fault_label, scratch, origin="proxy"):
+def continue_after_fault(res, t, base, rep, feats, own, rng, origin):
+    """Further writes and reads on the live object after the fault: each either raises or agrees with the model
+    (started from what the object's own storage holds); the index battery must keep passing; the file after close
+    must hold what the object said it holds."""
+    from ..histories import getter_probes, query_probes
+
+    t.model.points = [MPoint(c[0], c[1], dict(c[2]), dict(c[3])) for c in own]
+    prof = Profile(reindex=1, reopen=0)
+    prof.allow_no_time = False
+    res.count(f"{origin}.continuations")
+    for step in range(4):
+        op = gen_write_op(rng, t.model, prof)
+        with quiet_stdout():
+            out = t.do(op)
+        if out.exc is not None:
+            res.count(f"{origin}.continuation_op_raised")
+            if not isinstance(out.exc, (OSError, ValueError)):
+                res.violate(Violation("C13", "later-operation-fails-with-unexpected-exception", dict(base, later_op=op["op"], exc=f"{type(out.exc).__name__}: {out.exc}"[:200]), replay=rep, features=feats))
+                return False
+            break
+        res.count(f"{origin}.continuation_ops")
+        try:
+            post = t.contents()
+        except Exception:
+            break
+        if not out.agrees() or post != [p.canon() for p in t.model.points]:
+            res.violate(Violation("C13", "later-operation-wrong-after-io-error", dict(base, later=describe_op(t, out), contents=repr(post)[:300], model=repr([p.canon() for p in t.model.points])[:300]), replay=rep, features=feats))
+            return False
+        with quiet_stdout():
+            v = c06.check_index(res, t.db, {"config": base["config"], "after_fault": base["fault"], "later_op": op["op"], "replay": rep})
+        if v is not None:
+            v.prop = "C13"
+            v.kind = "live-index-disagrees-with-own-storage-after-io-error"
+            v.features = feats
+            res.violate(v)
+            return False
+        for probe in query_probes(rng, t.model, prof)[:8] + getter_probes(rng, t.model, prof)[:6]:
+            with quiet_stdout():
+                pout = t.do(probe)
+            if pout.exc is None and not pout.agrees():
+                res.violate(Violation("C13", "later-read-wrong-after-io-error", dict(base, later=describe_op(t, pout)), replay=rep, features=feats))
+                return False
+    want = [p.canon() for p in t.model.points]
+    try:
+        t.db.close()
+    except Exception:
+        res.count(f"{origin}.close_raised_after_fault")
+        return True
+    try:
+        ind = [p.canon() for p in csvcodec.decode_bytes(t.file_bytes(), "utf-8", {})]
+    except csvcodec.DecodeError as e:
+        ind = f"independent reader: {e}"
+    if ind != want:
+        res.violate(Violation("C13", "file-disagrees-with-live-object-after-continued-use", dict(base, decoded=repr(ind)[:400], live_said=repr(want)[:400]), replay=rep, features=feats))
+        return False
+    return True
+
+
+def describe_op(t, out):
+    return {"op": out.op if "q" not in out.op else dict(out.op, q=qast.show(out.op["q"])), "expected": repr(out.exp)[:200], "observed": repr(out.real)[:200],
+            "exc": None if out.exc is None else repr(out.exc)[:100]}
+
+
+def judge_after_fault(res, t, op, out, old, new, fault_label, scratch, origin="proxy", rng=None):
     """Oracle after a faulted op on twin session `t`. Returns False when a violation was raised."""
     cfg = cfg_name(t.cfg)
     opd = op if "q" not in op else dict(op, q=qast.show(op["q"]))
@@ -126,6 +189,9 @@ def judge_after_fault(res, t, op, out, old, new, fault_label, scratch, origin="p
             if got != want:
                 res.violate(Violation("C13", "live-answer-disagrees-with-own-storage-after-io-error", dict(base, read=name, observed=repr(got)[:300], own_storage=repr(want)[:300]), replay=rep, features=feats))
                 return False
+    # (2b) in a share of the cases: keep using the live object (further writes and reads)
+    if own_ok and rng is not None and rng.random() < 0.3:
+        return continue_after_fault(res, t, base, rep, feats, own, rng, origin)
     # (3) file after close: old or new; reopen and write again
     try:
         t.db.close()
@@ -202,7 +268,7 @@ def sweep_op(res, s, op, scratch, rng, tier):
                     res.sample({"config": cfg_name(s.cfg), "op": op if "q" not in op else dict(op, q=qast.show(op["q"])),
                                 "rows_before": len(old), "fault": label, "exception_seen_by_caller": repr(out.exc)[:120],
                                 "io_calls_of_op": [e.sig() for e in events][:30]})
-                if not judge_after_fault(res, t, op, out, old, new, label, scratch):
+                if not judge_after_fault(res, t, op, out, old, new, label, scratch, rng=rng):
                     return False
             finally:
                 t.discard()
